@@ -27,9 +27,11 @@ func (db *memoryDB) NewIterator(prefix []byte, start []byte) (database.Iterator,
 
 	var keys []string
 
-	// Collect all keys in the range [start, end)
+	prefixString := string(prefix)
+
+	// Collect all keys with the prefix that are at or after prefix+start
 	for key := range db.data {
-		if !strings.HasPrefix(key, startString) {
+		if !strings.HasPrefix(key, prefixString) {
 			continue
 		}
 		if strings.Compare(key, startString) >= 0 {
